@@ -11,6 +11,17 @@ import (
 // consistent rename of a private field does not unhook the rules. Recomputed on every Load.
 var fieldAlias = map[string]string{}
 
+// fieldOwner: a reference field that the tree keeps in another struct of the package, reached through a field of the
+// reference struct ("reconnectClient.disconnected" -> "reconnLifecycle" when the two life-cycle channels were bundled).
+var fieldOwner = map[string]string{}
+
+func ownerOf(typ, field string) string {
+	if o, ok := fieldOwner[typ+"."+field]; ok {
+		return o
+	}
+	return typ
+}
+
 func aliasField(typ, field string) string {
 	if a, ok := fieldAlias[typ+"."+field]; ok {
 		return a
@@ -67,6 +78,7 @@ func (c *Ctx) mutexLockedIn(typ string, m *ssa.Function, exclusiveOnly bool) str
 
 func (c *Ctx) computeAliases() {
 	fieldAlias = map[string]string{}
+	fieldOwner = map[string]string{}
 	set := func(typ, ref, actual string) {
 		if actual == "" || actual == ref {
 			return
@@ -161,7 +173,7 @@ func (c *Ctx) computeAliases() {
 	set("RetryClient", "chConnSwitch", byType("RetryClient", func(f *types.Var) bool { return tstr(f) == "chan struct{}" }, aliasOr("RetryClient", "chTask", chTask)))
 	set("RetryClient", "newRetryByError", byType("RetryClient", func(f *types.Var) bool { return tstr(f) == "bool" && !f.Exported() }, aliasOr("RetryClient", "stopped", stopped)))
 	// reconnectClient
-	disc := ""
+	disc, discOwner := "", ""
 	if d := c.Method("reconnectClient", "Disconnect"); d != nil {
 		eachInstr(d, func(in ssa.Instruction) {
 			if k, ok := in.(*ssa.Call); ok {
@@ -170,6 +182,7 @@ func (c *Ctx) computeAliases() {
 						if fa, ok := ld.X.(*ssa.FieldAddr); ok {
 							_, f := fieldOf(fa)
 							disc = f.Name()
+							discOwner = typeName(fa.X.Type())
 						}
 					}
 				}
@@ -178,6 +191,17 @@ func (c *Ctx) computeAliases() {
 	}
 	set("reconnectClient", "disconnected", disc)
 	set("reconnectClient", "done", byType("reconnectClient", func(f *types.Var) bool { return tstr(f) == "chan struct{}" }, aliasOr("reconnectClient", "disconnected", disc)))
+	if discOwner != "" && discOwner != "reconnectClient" {
+		// the channel Disconnect closes lives in a struct of its own: so does the other life-cycle channel
+		if st := c.structOf("reconnectClient"); st != nil && !hasField(st, "disconnected") && !hasField(st, disc) {
+			fieldOwner["reconnectClient.disconnected"] = discOwner
+			fieldAlias["reconnectClient.disconnected"] = disc
+			if other := byType(discOwner, func(f *types.Var) bool { return tstr(f) == "chan struct{}" }, disc); other != "" {
+				fieldOwner["reconnectClient.done"] = discOwner
+				fieldAlias["reconnectClient.done"] = other
+			}
+		}
+	}
 	set("reconnectClient", "options", byType("reconnectClient", func(f *types.Var) bool { return tstr(f) == "*ReconnectOptions" }))
 	set("reconnectClient", "dialer", byType("reconnectClient", func(f *types.Var) bool { return tstr(f) == "Dialer" }))
 }
